@@ -271,6 +271,35 @@ def mc(ctx, module, cfg, *, expect_ok=True, **kw):
     return r
 
 
+def apalache(ctx, module, init, inv, length, *, cinit="CInit", timeout=600, expect="NoError", specdir=SPEC):
+    """apalache-mc check in a scratch copy. Used for inductive-invariant arguments (unbounded integers, arbitrary start state):
+    `Init => Inv` at length 0, `IndInit /\\ Next => Inv'` at length 1. Returns wall seconds; anything but the expected outcome is
+    an infrastructure problem of the design stage (never a VIOLATION: the specification, not the code, is checked here)."""
+    d = ctx.sub("apalache-%s-%s-%s" % (module, init, inv))
+    run = os.path.join(d, "spec")
+    if not os.path.exists(run):
+        shutil.copytree(specdir, run)
+    exe = shutil.which("apalache-mc")
+    if not exe:
+        raise Infra("apalache-mc not found")
+    cmd = ["timeout", str(timeout), exe, "check", "--out-dir=" + os.path.join(d, "out"), "--cinit=" + cinit, "--init=" + init,
+           "--inv=" + inv, "--length=%d" % length, module + ".tla"]
+    e = dict(os.environ)
+    e["JAVA_TOOL_OPTIONS"] = ("-Djava.io.tmpdir=%s" % d)
+    t = time.time()
+    p = subprocess.run(cmd, cwd=run, env=e, stdout=subprocess.PIPE, stderr=subprocess.STDOUT, text=True)
+    wall = time.time() - t
+    m = re.search(r"The outcome is: (\w+)", p.stdout)
+    outcome = m.group(1) if m else "none(rc=%d)" % p.returncode
+    ctx.cov["configs"].append({"module": module, "engine": "apalache", "init": init, "inv": inv, "length": length,
+                               "outcome": outcome, "wall_s": round(wall, 1)})
+    ctx.log("APALACHE %s init=%s inv=%s length=%d: %s, %.1fs" % (module, init, inv, length, outcome, wall))
+    shutil.rmtree(os.path.join(d, "out"), ignore_errors=True)
+    if outcome != expect:
+        raise Infra("apalache %s/%s/%s: outcome %s (expected %s)\n%s" % (module, init, inv, outcome, expect, "\n".join(p.stdout.splitlines()[-30:])))
+    return wall
+
+
 def coverage_zero(out):
     """Actions with zero coverage in a -coverage run."""
     zero = []
